@@ -45,7 +45,7 @@ def normalise_line(b: bytes) -> bytes:
 def run_event(run_id, hist, texts, r, cfg, intern=None, skin=None, data=None):
     """Mechanical projection of one run into a Trace_Stream event."""
     intern = intern or gitskin.Interner()
-    lines = gitskin.line_events(hist, texts, intern)
+    lines = gitskin.line_events(hist, texts, intern, git_prefix=(skin or {}).get("git_prefix"))
     if data is not None:
         raw = data.split(b"\n")[:-1]
         for ln, b in zip(lines, raw):
@@ -110,7 +110,7 @@ class Plan:
 
     def __init__(self, name, hists, args=(), cfg=None, payload=gitskin.default_payload, skin=None, env=None):
         self.name, self.hists, self.args, self.payload, self.skin, self.env = name, hists, list(args), payload, skin, env
-        self.cfg = {"keep": False, "tabs": 8, "colorOnly": False, "buf": 32, "hhFile": True}
+        self.cfg = {"keep": False, "tabs": 8, "colorOnly": False, "buf": 32, "hhFile": True, "rel": False}
         if cfg:
             self.cfg.update(cfg)
 
